@@ -1338,3 +1338,95 @@ func ruleFreshPerSend(r *Run, id string, pkgs ...string) {
 	}
 	r.Stat("handovers_in_loops", n)
 }
+
+// ruleCancelFieldsClosed: a struct that keeps the cancel function of its own context promises that closing it stops
+// its goroutines. For every struct field of type context.CancelFunc in the given packages, some method of that
+// struct whose name starts with Close/close calls the field (directly, deferred, or through a callee of the type).
+func ruleCancelFieldsClosed(r *Run, id string, pkgs ...string) {
+	r.Begin(id, "a kept cancel function is called when the object is closed: for every struct field of type context.CancelFunc in "+strings.Join(pkgs, ", ")+", a Close…/close… method of the struct calls it (directly, deferred or through a helper method); without that the object's goroutines and waiters outlive Close", 3)
+	p := r.P
+	for _, pk := range p.Pkgs {
+		okPkg := false
+		rel := strings.TrimPrefix(pk.PkgPath, modPath)
+		for _, want := range pkgs {
+			if rel == want || (strings.HasSuffix(want, "/") && strings.HasPrefix(rel, want)) {
+				okPkg = true
+			}
+		}
+		if !okPkg || pk.Types == nil {
+			continue
+		}
+		sc := pk.Types.Scope()
+		for _, nm := range sc.Names() {
+			tn, ok := sc.Lookup(nm).(*types.TypeName)
+			if !ok {
+				continue
+			}
+			n, ok := tn.Type().(*types.Named)
+			if !ok {
+				continue
+			}
+			st, ok := n.Underlying().(*types.Struct)
+			if !ok {
+				continue
+			}
+			for i := 0; i < st.NumFields(); i++ {
+				f := st.Field(i)
+				if !typeIs(f.Type(), "context", "CancelFunc") {
+					continue
+				}
+				fk := fieldKey(n, f)
+				// closing methods
+				called := false
+				var closers []string
+				for j := 0; j < n.NumMethods(); j++ {
+					m := n.Method(j)
+					if !strings.HasPrefix(m.Name(), "Close") && !strings.HasPrefix(m.Name(), "close") {
+						continue
+					}
+					fn := p.SSA.FuncValue(m)
+					if fn == nil {
+						continue
+					}
+					closers = append(closers, m.Name())
+					if p.callsFieldFunc(fn, fk, 2, map[*ssa.Function]bool{}) {
+						called = true
+					}
+				}
+				if len(closers) == 0 {
+					continue // no closing method: the cancel function belongs to someone else's protocol
+				}
+				r.Check("cancel field "+fk, called, p.pos(f.Pos()), tname(n), fmt.Sprintf("closing methods %v; one of them calls the kept cancel function: %v", closers, called))
+			}
+		}
+	}
+}
+
+// callsFieldFunc: fn (or a method/closure it statically calls or defers, up to depth) calls the func stored in field fk.
+func (p *Prog) callsFieldFunc(fn *ssa.Function, fk string, depth int, seen map[*ssa.Function]bool) bool {
+	if fn == nil || fn.Blocks == nil || seen[fn] {
+		return false
+	}
+	seen[fn] = true
+	found := false
+	withAnon(fn, func(f *ssa.Function) {
+		allInstrs(f, func(ins ssa.Instruction) {
+			cc := instrCall(ins)
+			if cc == nil || found {
+				return
+			}
+			if !cc.IsInvoke() && cc.StaticCallee() == nil {
+				if hasLeaf(p.Leaves(cc.Value, provOpts{}), "field:"+fk) {
+					found = true
+				}
+				return
+			}
+			if depth > 0 {
+				if cf := cc.StaticCallee(); cf != nil && p.Analysed(cf) && p.callsFieldFunc(cf, fk, depth-1, seen) {
+					found = true
+				}
+			}
+		})
+	})
+	return found
+}
